@@ -199,7 +199,12 @@ def part_eviction(ctx, n):
 # =============================================================================================== (2) run-time part
 DOCS = ['<root><a/>tail</root>',
         '<r>a<x>p<i/>q</x>b<!--c-->d<y><z/>t</y>e</r>',
-        '<r><a>one<b>two</b>three</a><c/>four<d>five<e/>six</d></r>']
+        '<r><a>one<b>two</b>three</a><c/>four<d>five<e/>six</d></r>',
+        '<root><a>sch\u00f6n<b/><c/></a><d/>t</root>']
+PRETTY = impl.FormatOptions(align_attributes=False, indentation="  ", width=0)
+WRAPPED = impl.FormatOptions(align_attributes=False, indentation=" ", width=20)
+BLANK_TAILS = []      # the chain members behind a blanked text node that programs of the current run created
+SCRATCH = []          # one temporary directory per check run (outside /verif), removed at the end
 
 
 def gen_program(rng, n_ops):
@@ -213,7 +218,7 @@ def gen_program(rng, n_ops):
     prog["seed"] = rng.randrange(1 << 30)
     for _ in range(n_ops):
         prog["ops"].append({"op": rng.choice(OPS), "h": rng.randrange(64), "keep": rng.random() < 0.5,
-                            "k": rng.randrange(4), "txt": rng.choice(["X", "Y", " z "])})
+                            "k": rng.randrange(4), "txt": rng.choice(["X", "Y", " z ", "foo "])})
     if rng.random() < 0.06:
         prog["ops"].insert(rng.randrange(len(prog["ops"]) + 1), {"op": "set_content", "h": rng.randrange(64), "keep": False,
                                                                  "k": 0, "txt": ""})
@@ -221,6 +226,7 @@ def gen_program(rng, n_ops):
 
 
 OPS = ["add_following_text", "add_following_text", "add_following_texts", "add_preceding_tag", "append_children",
+       "blank_chain", "refill_previous", "refill_previous", "save_ascii", "prepend_texts",
        "set_content", "nav_parent", "nav_tag_child", "nav_following_tag", "detach", "replace_with", "drop", "drop",
        "insert_child", "serialize"]
 
@@ -246,6 +252,13 @@ def wired(h):
             return any(c is h for c in p.iterate_children())
     except Exception as e:  # noqa: BLE001
         return "raised " + type(e).__name__
+
+
+def attached(h):
+    try:
+        return h.parent is not None
+    except Exception:  # noqa: BLE001
+        return False
 
 
 def text_of(h):
@@ -297,6 +310,7 @@ def run_program(prog, mode):
     import random
     rng = random.Random(prog["seed"])
     obs = []
+    del BLANK_TAILS[:]
     gc.collect()
     gc.collect()
     with Unraisable() as unr:
@@ -330,7 +344,7 @@ def run_program(prog, mode):
                 if handles:
                     h = handles[o["h"] % len(handles)]
                     try:
-                        res = apply_op(o, h, handles)
+                        res = apply_op(o, h, handles, doc)
                     except Exception as e:  # noqa: BLE001
                         res = "raised " + type(e).__name__
                     del h
@@ -340,6 +354,7 @@ def run_program(prog, mode):
                     guard_broken = True
                 # what the program observes at this point
                 snap = {"res": res, "texts": [text_of(h) for h in handles],
+                        "blank_tail_held": any(h is z and attached(z) for h in handles for z in BLANK_TAILS),
                         "wired": [wired(h) for h in handles], "guard_broken": guard_broken,
                         "lib_guard_broken": lib_guard_broken}
                 try:
@@ -348,13 +363,19 @@ def run_program(prog, mode):
                         while top.parent is not None:
                             top = top.parent
                         snap["tree"] = str(top)
+                        try:
+                            snap["pretty"] = [top.serialize(format_options=PRETTY), top.serialize(format_options=WRAPPED)]
+                        except Exception as e:  # noqa: BLE001
+                            snap["pretty"] = "raised " + type(e).__name__
                 except Exception as e:  # noqa: BLE001
                     snap["tree"] = "raised " + type(e).__name__
+                snap.setdefault("pretty", None)
                 top = None
                 obs.append(snap)
                 if mode == "every-call":
                     gc.collect()
             # release
+            del BLANK_TAILS[:]
             del handles, doc
         finally:
             gc.disable()
@@ -363,12 +384,52 @@ def run_program(prog, mode):
         left = len(cache.wrappers)
         if left:
             cache.wrappers.clear()
+        if cache.locks:
+            unr.seen.append(("LockLeftBehind", "_wrapper_cache.locks == %d after the program ended" % cache.locks))
+            cache.locks = 0
     return obs, left, unr.seen
 
 
-def apply_op(o, h, handles):
+def apply_op(o, h, handles, doc=None):
     op = o["op"]
     is_text = isinstance(h, TextNode)
+    if op == "blank_chain":
+        # a placeholder text node that is blank for a while, in front of the only chain member the program keeps
+        r = h.add_following_siblings("k", "E", "z")
+        r[1].content = ""                 # always an APPENDED text node, never the head of the chain
+        handles.append(r[2])
+        BLANK_TAILS.append(r[2])
+        for i, x in enumerate(handles):
+            if x is h:
+                handles.pop(i)
+                break
+        return "ok"
+    if op == "refill_previous":
+        if not is_text:
+            return "n/a"
+        with altered_default_filters():
+            p = h.fetch_preceding_sibling()
+        if isinstance(p, TextNode) and p.content == "":
+            p.content = "P"
+            return "refilled"
+        return "nothing to refill"
+    if op == "save_ascii":
+        # an error inside a `with _wrapper_cache:` region that the program handles (then it goes on)
+        if doc is None:
+            return "n/a"
+        import pathlib
+        path = pathlib.Path(SCRATCH[0]) / "out.xml"
+        try:
+            doc.save(path, encoding="ascii")
+            return "saved"
+        except UnicodeEncodeError:
+            doc.save(path, encoding="utf-8")
+            return "fell back to utf-8"
+    if op == "prepend_texts":
+        if not isinstance(h, TagNode):
+            return "n/a"
+        h.prepend_children(o["txt"], "bar")
+        return "ok"
     if op == "add_following_text":
         r = h.add_following_siblings(o["txt"])
         if o["keep"]:
@@ -471,6 +532,7 @@ def compare_runs(ctx, prog, confirm=True):
         return
     base, left0, unr0 = run_program(prog, "none")
     emptied = any(o["op"] == "set_content" and not o["txt"] for o in prog["ops"])
+    blanked = any(o["op"] == "blank_chain" for o in prog["ops"])
     if left0:
         ctx.fail("cached node objects left behind after release (no collection before)", {"kind": "release", "prog": prog,
                                                                                           "mode": "none", "left": left0,
@@ -489,15 +551,16 @@ def compare_runs(ctx, prog, confirm=True):
                      {"kind": "release", "prog": prog, "mode": mode, "left": left, "emptied_head": emptied,
                       "unraisable": bool(unr)}, classify)
         for step, (a, b) in enumerate(zip(base, obs)):
-            diff = [k for k in ("res", "tree", "texts", "wired") if a[k] != b[k]]
+            diff = [k for k in ("res", "tree", "pretty", "texts", "wired") if a[k] != b[k]]
             if diff:
-                what = {"tree": "the content of the tree", "texts": "the content of a held text node",
+                what = {"tree": "the content of the tree", "pretty": "the indented / wrapped serialization of the tree", "texts": "the content of a held text node",
                         "wired": "a held node is no longer the object navigation returns for its position",
                         "res": "the result of a call"}[diff[0]]
                 ctx.fail("collections changed what the program observes: " + what,
                          {"kind": "observation", "prog": prog, "mode": mode, "step": step, "differs": diff,
                           "without_gc": {k: a[k] for k in diff}, "with_gc": {k: b[k] for k in diff},
                           "guard_broken": a["guard_broken"], "lib_guard_broken": a["lib_guard_broken"],
+                          "blanked": blanked, "blank_tail_held": a["blank_tail_held"],
                           "emptied_head": emptied, "unraisable": bool(unr)}, classify)
                 break
     ctx.sample({"part": "program", "program": prog, "final_tree": base[-1]["tree"] if base else None}, limit=4)
@@ -531,6 +594,16 @@ def classify(finding, case):
     if cls == "library-held-head-text-during-call":
         return (case.get("kind") == "observation" and case.get("mode") == "threshold-1" and bool(case.get("lib_guard_broken"))
                 and not case.get("guard_broken") and not case.get("unraisable"))
+    if cls == "blank-text-node-hides-its-chain":
+        # a blanked text node hides what follows it in its chain until a collection merges the chain; that needs the
+        # chain to be unreferenced: no chain member behind a blank is held when the runs first differ
+        return (case.get("kind") == "observation" and (bool(case.get("blanked")) or bool(case.get("emptied_head")))
+                and not case.get("blank_tail_held") and not case.get("unraisable"))
+    if cls == "wrapped-serialization-of-uncoalesced-text":
+        a, b = (case.get("without_gc") or {}).get("pretty"), (case.get("with_gc") or {}).get("pretty")
+        return (case.get("kind") == "observation" and case.get("differs") == ["pretty"]
+                and isinstance(a, list) and isinstance(b, list) and a[0] == b[0] and a[1] != b[1]
+                and "".join(a[1].split()) == "".join(b[1].split()))
     if cls == "empty-head-with-chain":
         return bool(case.get("emptied_head")) and (case.get("kind") == "unraisable" or bool(case.get("unraisable")))
     return False
@@ -560,6 +633,22 @@ def replay_open(f):
             root.append_children("Y")
             gc.disable()
             return "Y" not in str(root)
+        if f["cls"] == "blank-text-node-hides-its-chain":
+            r = Document(f["witness"]["xml"]).root
+            with altered_default_filters():
+                k = r[0][0].add_following_siblings("k", "E", "z")
+                k[1].content = ""
+            del k
+            before = str(r)
+            gc.collect()
+            return str(r) != before
+        if f["cls"] == "wrapped-serialization-of-uncoalesced-text":
+            d = Document(f["witness"]["xml"])
+            with altered_default_filters():
+                d.root[0][1].detach()
+            before = d.root.serialize(format_options=WRAPPED)
+            gc.collect()
+            return d.root.serialize(format_options=WRAPPED) != before
         if f["cls"] == "empty-head-with-chain":
             with Unraisable() as unr:
                 r = Document('<r>a</r>').root
@@ -586,6 +675,9 @@ def run(ctx, args):
     ctx.regen(["GenWs.v", "GenGC.v"])
     ctx.build("Props/C04.vo")
     state = (gc.isenabled(), gc.get_threshold())
+    import shutil
+    import tempfile
+    SCRATCH[:] = [tempfile.mkdtemp(prefix="c04-")]
     try:
         gc.disable()
         if args.replay:
@@ -605,6 +697,7 @@ def run(ctx, args):
             gc.enable()
         else:
             gc.disable()
+        shutil.rmtree(SCRATCH[0], ignore_errors=True)
     ctx.notes.append("gc state restored: enabled=%s thresholds=%s" % (gc.isenabled(), gc.get_threshold()))
     return ctx.finish(
         rule="(1) eviction rule: a document with chains of appended text grown through the API (optionally only partly "
